@@ -47,6 +47,7 @@ type Disk struct {
 	BytesWritten              int64
 	SyncsStarted, SyncsDone   int
 	Stats                     map[string]int
+	Wipes                     int
 	OnWrite                   func(off int64, old, new []byte) // monitor hook (called with the baton held)
 	OnSyncStart, OnSyncDone   func()
 	FailNextWrites            int // harness-forced persistent write failures
@@ -188,6 +189,19 @@ func (d *Disk) Sync() error {
 }
 
 func (d *Disk) Close() error { d.Closed = true; return nil }
+
+// Wipe zero-fills the device (what opening a block device file with
+// zeroInitialize does).
+func (d *Disk) Wipe() {
+	for i := range d.visible {
+		d.visible[i] = 0
+	}
+	for i := range d.durable {
+		d.durable[i] = 0
+	}
+	d.log = nil
+	d.Wipes++
+}
 
 // Visible returns the visible image (not a copy).
 func (d *Disk) Visible() []byte { return d.visible }
